@@ -37,7 +37,7 @@ def records(ctx):
             c = rng.uniform(0.5, 2)
             add('misid', {'s': enc(fs * c), 'p': common.rat(p)}, observe(lambda: g([c, p], None, None)), 'Numerics.make_anc_state_misid_func')
     # populations with more than 255 chromosomes (allele counts beyond one byte), 1-D and 2-D
-    for sh in ([301], [280, 3], [2, 262]) if ctx.quick else ([301], [280, 3], [2, 262], [513], [3, 300], [258, 258]):
+    for sh in ([301], [280, 3], [2, 262]) if ctx.quick else ([301], [280, 3], [2, 262], [513], [3, 300], [258, 12]):
         fs = rand_spectrum(rng, sh, folded=False, labels=None, mask_mode='corners', integer=True)
         add('fold', {'s': enc(fs)}, observe(lambda: fs.fold()), 'Spectrum.fold')
         add('fuf', {'s': enc(fs)}, observe(lambda: fs.fold().unfold().fold()), 'Spectrum.unfold')
